@@ -59,6 +59,10 @@ CLAIMED = {
             "Proof: bit reader, SPS, PPS (any accepted-SPS context incl. 2^32-macroblock sizes), slice header (fuelled loops never run out), SEI reader and payload parsers, AVCC construction/iterators/context creation, SPS helpers and the chunk reader never abort in the model; SEI payloads handed out lie within the buffered data. Partial: Annex B push/reset and the accumulator are total functions of the model by construction; ByteReader totality is checked by correspondence only; wall-clock linearity and real allocator behaviour are observed (size doubling to 256 KiB / 1 MiB, largest single request <= 300 x input + 1 MiB, dev = release answers), not proved.",
             "Trusted: Coq kernel; std, memchr, bitstream-io, rfc6381-codec, hex-slice, log; documented preconditions (consume <= buffer, non-empty RefNal chunks, matching payload_type).",
             "DESIGN.md 5 C03"),
+    "C04": ("Coq round-trip proof of the SPS parser model against the standard's syntax written as an encoder (compositional Parses judgement, incl. scaling-list derivation, VUI, HRD) + weakest-precondition proof for accepted inputs + differential execution on generated conforming and malformed SPS",
+            "Proof: for every SPS value within the standard's ranges (wf_sps: all 13 chroma-info profiles, chroma formats, bit depths, 8/12 scaling lists given by their delta_scale values with wrap-around / early termination / use-default, POC types with <= 255 offsets, frame/field/MBAFF, cropping, every VUI/HRD sub-structure, 32-bit Exp-Golomb values) parsing enc_sps(x) ++ trailing bits returns exactly x (derived scaling lists included), and succeeds iff what follows the structure is 1 0^k; the model's chroma-info profile list equals the implementation's (dumped table). Converse proved in part (C04_converse_partial: every accepted input is consumed front to back into a value satisfying inv_sps); the bit-exact re-encoding of accepted inputs is checked by correspondence + generator only. Tied to SeqParameterSet::from_bits on >40k generated cases per run (full Debug rendering + derived values).",
+            "Trusted: Coq kernel; Spec/SyntaxSps.v is a hand transcription of 7.3.2.1.1, 7.3.2.1.1.1, E.1.1, E.1.2.",
+            "DESIGN.md 5 C04"),
 }
 
 PENDING_REASON = "not claimed yet in this revision: model and theorems for this layer are still being built (see DESIGN.md section 9 for the order of work)"
